@@ -82,8 +82,19 @@ def build_text(c):
         base = soup._damage((base, [tuple(o) for o in c["ops"]]))
     pts = boundaries(base)
     p = pts[c["pos"] % len(pts)]
+    deco = c.get("deco") or "none"
+    if deco == "pm_heading":
+        p = 0               # a heading that names the meridian, in front of the first Twp/Rge (nothing there for it to belong to)
+    elif deco == "pm_tail":
+        p = len(base)       # county, state and meridian after the end, further from the last Twp/Rge than a meridian's name reaches
     left, right = base[:p], base[p:]
     ins = c["word"]
+    if deco == "pm_heading":
+        ins = "Sixth Principal Meridian, Colorado " + ins
+    elif deco == "pm_tail":
+        ins = ", Williams County, North Dakota, " + ins + " 5th P.M."
+    elif deco.startswith("abbr:"):
+        ins = ins + deco[5:]      # a dotted abbreviation that is not a meridian ('N.M.' = New Mexico, a time of day)
     if left and not left[-1].isspace():
         ins = " " + ins
     if right and not right[0].isspace():
@@ -122,6 +133,7 @@ MODE = st.one_of(
 CASE = st.fixed_dictionaries({
     "d": G.description(None, 2, 2), "ops": _OPS.map(lambda ops: [list(o) for o in ops]), "word": WORD,
     "pos": st.integers(0, 400), "mode": MODE,
+    "deco": st.sampled_from(["none"] * 8 + ["pm_heading", "pm_tail", "abbr:, N.M.", "abbr: a.m.", "abbr:, B.M.", "abbr: W.M. survey", "abbr:, M.D.M."]),
 }).filter(_keep)
 
 _last = {}
@@ -190,6 +202,8 @@ def nontrivial(c):
 def classes(c):
     out = [mode_class(c["mode"]), f"landing={_last.get('landing')}", "damaged" if c["ops"] else "undamaged"]
     w = c["word"]
+    if (c.get("deco") or "none") != "none":
+        out.append("deco=" + c["deco"].split(":")[0])
     out.append("word=marker" if w == "QJXKQ" else "word=deed" if w in DEED_WORDS else "word=short" if w in SHORT_WORDS else "word=random")
     return out
 
@@ -241,8 +255,19 @@ def within_text(c):
     base = _c20.within_text(c["w"])
     pts = boundaries(base)
     p = pts[c["pos"] % len(pts)]
+    deco = c.get("deco") or "none"
+    if deco == "pm_heading":
+        p = 0               # a heading that names the meridian, in front of the first Twp/Rge (nothing there for it to belong to)
+    elif deco == "pm_tail":
+        p = len(base)       # county, state and meridian after the end, further from the last Twp/Rge than a meridian's name reaches
     left, right = base[:p], base[p:]
     ins = c["word"]
+    if deco == "pm_heading":
+        ins = "Sixth Principal Meridian, Colorado " + ins
+    elif deco == "pm_tail":
+        ins = ", Williams County, North Dakota, " + ins + " 5th P.M."
+    elif deco.startswith("abbr:"):
+        ins = ins + deco[5:]      # a dotted abbreviation that is not a meridian ('N.M.' = New Mexico, a time of day)
     if left and not left[-1].isspace():
         ins = " " + ins
     if right and not right[0].isspace():
